@@ -39,7 +39,7 @@ ASSUMPTIONS = [
     "signature/puzzle frames written by the transport at start-up are not commands (the write ledger is filtered by frame)",
     "'delivered to the application' = a handler registered with Gateway.add_msg_handler()",
 ]
-REQUIRED = {"configs": 10, "rx.expected_pass": 50, "rx.expected_drop": 50, "tx.expected_pass": 10, "tx.expected_refuse": 10, "devices.checked": 20, "scenario.live": 5, "scenario.restore": 3, "scenario.reconnect": 2, "restore.lines_held": 20}
+REQUIRED = {"configs": 10, "rx.expected_pass": 50, "rx.expected_drop": 50, "tx.expected_pass": 10, "tx.expected_refuse": 10, "devices.checked": 20, "startups.with_foreign_signature": 3, "scenario.live": 5, "scenario.restore": 3, "scenario.reconnect": 2, "restore.lines_held": 20}
 
 ALL, NON, HGI = "63:262142", "--:------", "18:000730"
 
@@ -187,6 +187,11 @@ async def run_config(loop: vloop.VirtualLoop, ctx, cfg: dict[str, Any]) -> None:
                     t0 = vloop.EPOCH.replace(microsecond=0) - _td(seconds=2)
                     cache = {(t0 + _td(milliseconds=7 * i)).isoformat(timespec="microseconds"): f"045 {frame}" for i, (frame, _, _) in enumerate(ok_packets)}
                 port = air.add_port(cfg["old_active"] if scenario == "reconnect" else "18:006402")
+                if rng.random() < 0.4:
+                    # a neighbour's gateway identifies itself (its own signature packet) while ours is doing the same
+                    for d in (0.0005, 0.002, 0.0035, 0.03):
+                        loop.call_later(d, air.inject, f" I --- {cfg['foreign']} 63:262142 --:------ 7FFF 016 001001A0EEA881B076302E33312E3233", 0.0, "045", False)
+                    ctx.count("startups.with_foreign_signature")
                 with serial_patched():
                     gwy = Gateway(port.name, **kwargs)
                     gwy.add_msg_handler(lambda m: got.append(str(m._pkt)))
